@@ -1,6 +1,8 @@
 CONSTANTS
   BITS = 7
   ERAS = 3
+  PRE = 2
 SPECIFICATION GenSpec
 INVARIANT EmitText
+INVARIANT EmitInstant
 CHECK_DEADLOCK FALSE
